@@ -82,7 +82,9 @@ Literals ==
      Ins("andi", 8, 8, -1), Ins("sub", 8, 8, 9), Ins("xor", 8, 8, 9), Ins("or", 15, 15, 8), Ins("and", 9, 9, 9),
      Ins("add", 9, 0, 8), Ins("add", 9, 9, 8), Ins("jalr", 0, 1, 0), Ins("jalr", 1, 5, 0), Ins("ebreak", 0, 0, 0),
      Pins("nop", 0, 0), Pins("mv", 9, 8), Pins("ret", 0, 0), Pins("jr", 5, 0), Pins("jalr", 5, 0), Pins("not", 8, 8),
-     Pins("neg", 8, 8), Pins("seqz", 9, 8), Br("bne", 9, 0, "L1"), Jal(1, "L1"), Pj("j", "L1"), Align(4), Data(1) >>
+     Pins("neg", 8, 8), Pins("seqz", 9, 8), Br("bne", 9, 0, "L1"), Jal(1, "L1"), Pj("j", "L1"), Align(4), Data(1),
+     \* li of literal values whose lui / addi halves have 16-bit forms (or not: sp, large parts)
+     Li(9, 1, 1), Li(5, 0, 16384), Li(9, 65535, 61441), Li(2, 1, 1), Li(9, 4660, 22136), Li(9, 0, 31), Li(9, 31, 63488) >>
 
 \* branches / jumps to an ABSOLUTE address held in a constant (the distance grows when earlier items shrink)
 Abs ==
